@@ -92,15 +92,16 @@ type Pipeline struct {
 	ReadErr  error
 	procErrs []string
 
-	Out       []*OutEvent // every event written so far, in write order
-	outSeen   int
-	writeSeen int
-	worldLeft int
-	pidIdent  map[string]string // subjects.pid of an emitted UserLogin -> identity
-	OnNew     func(axis int, evs []*OutEvent)
-	BadWrites []string // payloads that are not exactly one JSON event + newline (C10)
-	Knobs     map[string]int
-	NoChunk   bool
+	Out           []*OutEvent // every event written so far, in write order
+	outSeen       int
+	writeSeen     int
+	worldLeft     int
+	pidIdent      map[string]string // subjects.pid of an emitted UserLogin -> identity
+	OnNew         func(axis int, evs []*OutEvent)
+	BadWrites     []string // payloads that are not exactly one JSON event + newline (C10)
+	Knobs         map[string]int
+	NoChunk       bool
+	PoisonActions bool
 }
 
 func (p *Pipeline) axis() int { return p.rc.Sim.EventCount() }
@@ -191,7 +192,7 @@ func (p *Pipeline) Start() error {
 			p.setReturned(err)
 		})
 	case 2:
-		p.rec = &Recorder{Sim: rc.Sim}
+		p.rec = &Recorder{Sim: rc.Sim, PoisonActions: p.PoisonActions}
 		ew := auditevent.NewAuditEventWriter(p.rec)
 		p.audits = make(chan string, 64)
 		p.logins = make(chan common.RemoteUserLogin)
